@@ -35,11 +35,8 @@ def alias_case(ctx, struct, ops, cplx=False, subset='all', prestate='sorted', wr
     W = C.World(ctx, struct, cplx=cplx, subset=subset, prestate=prestate)
     name, v = ops[ctx.choice('op', len(ops))]
     tag = name if v == 'd' else f'{name}/{v}'
-    try:
-        sc = C.OPS[name].build(W, v)
-    except C.Skip:
-        ctx.note('skipped')
-        ctx.prove(True, 'scenario not applicable')
+    sc = C.build_scenario(ctx, W, name, v)
+    if sc is None:
         return
     operands = [o for o in sc.operands if C.is_array(o)]
     deep = None
@@ -106,6 +103,8 @@ def CASES(tier, seed):
             from props.c02_invariants import CORE_OPS
             qv = [(n, v) for n, sp in C.OPS.items() if 'A' in sp.tiers and n != 'norm' for v in sp.quick]
             ops = [o for o in qv if P1.COST_A.get(tuple(o), 1.5) < 30] if first_pattern else [o for o in opsA if tuple(o) in CORE_OPS]
+            if st['mods'][0] == 3 and not first_pattern:  # z3 answers unknown on the nested mod-3 charge rule of the pipe operand
+                ops = [o for o in ops if o[0] != 'split_legs']
         for ci, chunk in enumerate(P1._balanced(ops, P1.COST_A, 4 if tier == 'quick' else 10)):  # small cases: the wall-time cap also holds on a loaded machine
             cases.append(dict(name=f"A[mod={st['mods']},qconj={[l['qconj'] for l in st['legs']]}]ops{ci}:{P1._opsname(chunk)}",
                               fn='alias_case', params=dict(struct=st, ops=chunk, cplx=(si % 4 == 0), subset='all',
